@@ -23,6 +23,7 @@ func init() {
 	reg("C13", "C13.M", "E1+E2", "metric label values (taken from event fields) are made valid UTF-8 before they reach a panicking prometheus Vec method", 4, ruleMetricLabelsSanitized)
 	reg("C13", "C13.D", "E2", "no integer division or remainder by a value that may be zero (reviewed table otherwise)", 1, ruleActionDivisions)
 	reg("C13", "C13.J", "E2", "the time-out exit of a joining action is unreachable: busy results only while the joining flag is true (same rule as C15.R7)", 1, ruleBusyOnlyWhileJoining)
+	reg("C13", "C13.A", "E6", "no unsafe view of plugin-owned or pooled storage is left in the event or returned", 1, ruleActionBufferViews)
 }
 
 // coreType: receiver types of package pipeline that are the engine itself, not helpers.
@@ -729,4 +730,175 @@ func ruleActionDivisions(c *Ctx, r *Rule) {
 	c.runDivisions(r, c.actionScope())
 	r.Inst(1)
 	r.Ob(true, "scope", token.NoPos, "integer divisions in the action scope enumerated")
+}
+
+// ruleNoReusableBufferViews: an unsafe string/byte view (no copy) of storage that the plugin or a
+// pool re-uses must not be left in the event or handed back to a caller: the next field, the next
+// event on the same processor, or the next user of the pooled object rewrites it while the first
+// event is still waiting in an output batch.
+func (c *Ctx) runBufferViews(r *Rule, scope []*ssa.Function) {
+	isView := func(ci ssa.CallInstruction) (ssa.Value, bool) {
+		cc := ci.Common()
+		if b, ok := cc.Value.(*ssa.Builtin); ok && (b.Name() == "String" || b.Name() == "Slice") && len(cc.Args) >= 1 {
+			return cc.Args[0], true // unsafe.String / unsafe.Slice
+		}
+		if f := cc.StaticCallee(); f != nil && c.inModule(f) && (f.Name() == "ByteToStringUnsafe" || f.Name() == "StringToByteUnsafe") && len(cc.Args) == 1 {
+			return cc.Args[0], true
+		}
+		return nil, false
+	}
+	var reusable func(v ssa.Value, fn *ssa.Function, d int) (bool, string)
+	reusable = func(v ssa.Value, fn *ssa.Function, d int) (bool, string) {
+		if d > 8 {
+			return false, ""
+		}
+		switch x := v.(type) {
+		case *ssa.Slice:
+			return reusable(x.X, fn, d+1)
+		case *ssa.Convert:
+			return reusable(x.X, fn, d+1)
+		case *ssa.ChangeType:
+			return reusable(x.X, fn, d+1)
+		case *ssa.Phi:
+			for _, e := range x.Edges {
+				if ok, why := reusable(e, fn, d+1); ok {
+					return true, why
+				}
+			}
+		case *ssa.Call:
+			if b, isB := x.Call.Value.(*ssa.Builtin); isB && (b.Name() == "append" || b.Name() == "SliceData" || b.Name() == "StringData") {
+				return reusable(x.Call.Args[0], fn, d+1)
+			}
+		case *ssa.TypeAssert:
+			return reusable(x.X, fn, d+1)
+		case *ssa.Extract:
+			return reusable(x.Tuple, fn, d+1)
+		case *ssa.UnOp:
+			if x.Op != token.MUL {
+				return false, ""
+			}
+			if fa, isFA := x.X.(*ssa.FieldAddr); isFA {
+				// a field of the receiver (plugin state) or of a pooled object
+				base := fa.X
+				for i := 0; i < 4; i++ {
+					if u, isU := base.(*ssa.UnOp); isU && u.Op == token.MUL {
+						if fa2, isFA2 := u.X.(*ssa.FieldAddr); isFA2 {
+							base = fa2.X
+							continue
+						}
+					}
+					break
+				}
+				if len(fn.Params) > 0 && fn.Signature.Recv() != nil && base == ssa.Value(fn.Params[0]) {
+					o, f, _, _ := fieldOf(fa)
+					if o != nil && typeIs(o, pipelinePkg, "Event") {
+						return false, ""
+					}
+					return true, "the receiver's field " + f
+				}
+				if ok, _ := fromPool(base, 0); ok {
+					return true, "a field of a pooled object"
+				}
+			}
+		}
+		return false, ""
+	}
+	n := 0
+	for _, fn := range scope {
+		for _, ci := range callsIn(fn) {
+			src, ok := isView(ci)
+			if !ok || ci.Value() == nil {
+				continue
+			}
+			n++
+			r.Inst(1)
+			re, why := reusable(src, fn, 0)
+			if !re {
+				r.Ob(true, fmt.Sprintf("%s|view#%d", c.fnName(fn), n), ci.Pos(), "unsafe view of storage that is not re-used by the plugin or a pool (event-owned or local)")
+				continue
+			}
+			// does the view outlive the call?
+			esc := ""
+			var uses func(v ssa.Value, d int)
+			uses = func(v ssa.Value, d int) {
+				refs := v.Referrers()
+				if refs == nil || d > 4 || esc != "" {
+					return
+				}
+				for _, rf := range *refs {
+					switch x := rf.(type) {
+					case *ssa.Return:
+						esc = "returned to the caller"
+					case *ssa.Store:
+						if x.Val == v {
+							if _, local := x.Addr.(*ssa.Alloc); !local {
+								esc = "stored into " + c.path(x.Addr)
+							}
+						}
+					case *ssa.Phi, *ssa.ChangeType, *ssa.Convert, *ssa.Slice:
+						uses(x.(ssa.Value), d+1)
+					case *ssa.MakeInterface:
+						uses(x, d+1)
+					case ssa.CallInstruction:
+						f := calleeFunc(x)
+						if f == nil {
+							continue
+						}
+						rn := recvNamed(f)
+						if rn != nil && rn.Obj().Pkg() != nil && rn.Obj().Pkg().Path() == insanePkg {
+							nm := f.Name()
+							if (strings.HasPrefix(nm, "MutateTo") || strings.HasPrefix(nm, "AddField")) && !strings.Contains(nm, "Copy") {
+								esc = "left in the event by " + nm + " (no copy)"
+							}
+						}
+					}
+				}
+			}
+			uses(ci.Value(), 0)
+			r.Ob(esc == "", fmt.Sprintf("%s|view#%d", c.fnName(fn), n), ci.Pos(), "an unsafe view of "+why+" does not outlive the call: "+ifs(esc != "", esc+"; the storage is rewritten for the next field / event / pool user while this event is still in flight")+ifs(esc == "", "used for look-ups and comparisons only"))
+		}
+	}
+	r.Ob(true, "views-enumerated", token.NoPos, fmt.Sprintf("%d unsafe views examined", n))
+}
+
+func fromPool(v ssa.Value, d int) (bool, string) {
+	if d > 6 {
+		return false, ""
+	}
+	switch x := v.(type) {
+	case *ssa.Call:
+		if f := x.Call.StaticCallee(); f != nil {
+			if qualName(f) == "(*sync.Pool).Get" {
+				return true, "sync.Pool"
+			}
+			// a getter that returns a pooled object
+			for _, b := range f.Blocks {
+				for _, in := range b.Instrs {
+					if cc, ok := in.(*ssa.Call); ok && cc.Call.StaticCallee() != nil && qualName(cc.Call.StaticCallee()) == "(*sync.Pool).Get" {
+						return true, "sync.Pool"
+					}
+				}
+			}
+		}
+	case *ssa.TypeAssert:
+		return fromPool(x.X, d+1)
+	case *ssa.Extract:
+		return fromPool(x.Tuple, d+1)
+	case *ssa.Phi:
+		for _, e := range x.Edges {
+			if ok, w := fromPool(e, d+1); ok {
+				return true, w
+			}
+		}
+	case *ssa.UnOp:
+		return fromPool(x.X, d+1)
+	case *ssa.FieldAddr:
+		return fromPool(x.X, d+1)
+	}
+	return false, ""
+}
+
+func ruleActionBufferViews(c *Ctx, r *Rule) {
+	c.runBufferViews(r, c.actionScope())
+	r.Inst(1)
 }
